@@ -11,6 +11,11 @@ import VlsModel.Gen.FnPolicyMod
 import VlsModel.Gen.FnOnchainFactory
 import VlsModel.Gen.FnDefaultPolicy
 import VlsModel.Gen.FnSimpleMisc
+import VlsModel.Gen.FnB3Filter
+import VlsModel.Gen.FnB3OnchainPolicy
+import VlsModel.Gen.FnB3TestBuilder
+import VlsModel.Gen.FnB3NodeVal
+import VlsModel.Gen.FnB3ChannelVal
 import VlsModel.Gen.Chain
 import VlsModel.Lemmas.FnGen
 /-
@@ -1634,5 +1639,192 @@ example : Gen.FnPolicyMod.make_policy_error_with_filter "policy-commitment-htlc-
     (toPFM [⟨"policy-commitment-fee-range", false, .error⟩, ⟨"policy-commitment-htlc-count-limit", false, .warn⟩]) = .ok () := by rw [C05_fn_make_policy_error_with_filter]; rfl
 example : toOV.is_ready (toOCh ⟨100, 1, 0⟩) = true ∧ toOV.is_ready (toOCh ⟨100, 0, 0⟩) = false
     ∧ toOV.is_ready (toOCh ⟨100, 3, 1⟩) = false := by decide
+
+/-! ## Round 10 (builder b3): the remaining small functions of the policy files
+
+`Gen.FnB3Filter` (`policy/filter.rs`), `Gen.FnB3OnchainPolicy` (`policy/onchain_validator.rs`), `Gen.FnB3TestBuilder`
+(`policy/simple_validator.rs`, the `#[cfg(test)]` builder every unit test of the validator goes through). -/
+
+section B3
+open VlsModel.Gen
+
+/-- trait default `Policy::max_invoices` is the number the default policies carry in their own `max_invoices` field (so
+    a policy type that does not override the method and `SimplePolicy` built by `make_default_simple_policy` agree) -/
+theorem C05_fn_policy_max_invoices {S V : Type} (s : S) (unl fee : V) (net : FnDefaultPolicy.Network) :
+    FnPolicyMod.Policy.max_invoices s = 1000
+      ∧ (FnDefaultPolicy.make_default_simple_policy unl fee net).max_invoices = FnPolicyMod.Policy.max_invoices s := by
+  cases net <;> exact ⟨rfl, rfl⟩
+
+/-- the filter of `Gen.FnSimpleMisc` never fails (the loop has no partial operation) -/
+theorem simpleMisc_filter_ok (f : FnSimpleMisc.PolicyFilter) (tag : String) : ∃ r, f.filter tag = .ok r := by
+  unfold FnSimpleMisc.PolicyFilter.filter
+  cases f with
+  | mk rules =>
+    induction rules with
+    | nil => exact ⟨.Error, by simp [Rs.loopM]⟩
+    | cons r rs ih =>
+      simp only [Rs.loopM] at ih ⊢
+      by_cases hm : (if r.is_prefix = true then String.isPrefixOf r.tag tag else tag == r.tag) = true
+      · exact ⟨r.action, by simp [hm]⟩
+      · obtain ⟨x, hx⟩ := ih
+        exact ⟨x, by simpa [hm] using hx⟩
+
+/-- `SimplePolicy::policy_log` only logs: whatever the filter says about the tag, it returns normally and has no other
+    effect (`policy_log!` sites cannot refuse or panic) -/
+theorem C05_fn_simple_policy_log {V : Type} (sp : FnSimpleMisc.SimplePolicy V) (tag msg : String) :
+    sp.policy_log tag msg = .ok () := by
+  unfold FnSimpleMisc.SimplePolicy.policy_log
+  obtain ⟨r, hr⟩ := simpleMisc_filter_ok sp.filter tag
+  rw [hr]
+  cases r <;> rfl
+
+/-- `OnchainPolicy::policy_log` only logs -/
+theorem C05_fn_onchain_policy_log (p : FnB3OnchainPolicy.OnchainPolicy) (tag msg : String) :
+    p.policy_log tag msg = () := rfl
+
+/-- the on-chain policy's velocity specs are the two constants, each in its own method (not swapped): the global one is
+    `VelocityControlSpec::UNLIMITED`, the fee one `DEFAULT_FEE_VELOCITY_CONTROL` — the same two constants
+    `make_default_simple_policy` puts into the `SimplePolicy` fields of the same names -/
+theorem C05_fn_onchain_policy_velocity {V : Type} (unl fee : V) (p : FnB3OnchainPolicy.OnchainPolicy)
+    (net : FnDefaultPolicy.Network) :
+    p.global_velocity_control unl = unl ∧ p.fee_velocity_control fee = fee
+      ∧ (FnDefaultPolicy.make_default_simple_policy unl fee net).global_velocity_control = p.global_velocity_control unl
+      ∧ (FnDefaultPolicy.make_default_simple_policy unl fee net).fee_velocity_control = p.fee_velocity_control fee := by
+  cases net <;> exact ⟨rfl, rfl, rfl, rfl⟩
+
+/-- `FilterRule::new_warn(t)`: an **exact** rule (not a prefix rule) with action `Warn` … -/
+theorem C05_fn_filter_rule_new_warn (t : String) :
+    FnB3Filter.FilterRule.new_warn t = { tag := t, is_prefix := false, action := .Warn } := rfl
+
+/-- … `new_error(t)`: an exact rule with action `Error` -/
+theorem C05_fn_filter_rule_new_error (t : String) :
+    FnB3Filter.FilterRule.new_error t = { tag := t, is_prefix := false, action := .Error } := rfl
+
+/-- "only explicit rules downgrade", on the translated constructor and the translated filter together: a filter that
+    consists of `new_warn(t)` downgrades exactly the tag `t` — no other tag, in particular no tag that merely starts with
+    `t`; a filter that consists of `new_error(t)` downgrades nothing -/
+theorem C05_fn_filter_rule_exact (t tag : String) :
+    FnB3Filter.PolicyFilter.filter { rules := [FnB3Filter.FilterRule.new_warn t] } tag
+        = .ok (if tag == t then .Warn else .Error)
+      ∧ FnB3Filter.PolicyFilter.filter { rules := [FnB3Filter.FilterRule.new_error t] } tag = .ok .Error := by
+  unfold FnB3Filter.PolicyFilter.filter FnB3Filter.FilterRule.new_warn FnB3Filter.FilterRule.new_error
+  by_cases h : (tag == t) = true <;> simp [Rs.loopM, h]
+
+/-- `TestSimpleValidatorBuilder::new`: nothing overridden, testnet -/
+theorem C05_fn_test_builder_new {K : Type} :
+    (FnB3TestBuilder.TestSimpleValidatorBuilder.new : FnB3TestBuilder.TestSimpleValidatorBuilder K)
+      = ⟨none, none, none, none, none, none, none, none, .Testnet⟩ := rfl
+
+/-- every setter of the builder writes its own field and no other -/
+theorem C05_fn_test_builder_setters {K : Type} (b : FnB3TestBuilder.TestSimpleValidatorBuilder K) (n : Nat) (f : Bool) (k : K) :
+    b.cltv_delta_fn n = { b with cltv_delta := some n } ∧ b.enforce_balance_fn f = { b with enforce_balance := some f }
+      ∧ b.node_id_fn k = { b with node_id := some k } ∧ b.max_channel_size_sat_fn n = { b with max_channel_size_sat := some n }
+      ∧ b.min_delay_fn n = { b with min_delay := some n } ∧ b.max_delay_fn n = { b with max_delay := some n }
+      ∧ b.max_htlc_value_sat_fn n = { b with max_htlc_value_sat := some n }
+      ∧ b.use_chain_state_fn f = { b with use_chain_state := some f } :=
+  ⟨rfl, rfl, rfl, rfl, rfl, rfl, rfl, rfl⟩
+
+/-- `TestSimpleValidatorBuilder::build`: the validator under test runs the **default policy of the builder's network**
+    with exactly the overridden fields replaced (each override lands in the policy field of its own name), the given
+    node id or the fixed test key, and no channel id; it panics only if the fixed key does not parse -/
+theorem C05_fn_test_builder_build {K C : Type} (dflt : FnB3TestBuilder.Network → FnB3TestBuilder.SimplePolicy)
+    (fromSlice : List Nat → Option K) (b : FnB3TestBuilder.TestSimpleValidatorBuilder K) :
+    (FnB3TestBuilder.TestSimpleValidatorBuilder.build dflt fromSlice b : Rs.M (FnB3TestBuilder.SimpleValidator K C))
+      = match fromSlice (List.replicate 33 2) with
+        | none => .error .panic
+        | some k0 =>
+          let d := dflt b.network
+          .ok { policy := { min_delay := b.min_delay.getD d.min_delay, max_delay := b.max_delay.getD d.max_delay,
+                            max_channel_size_sat := b.max_channel_size_sat.getD d.max_channel_size_sat,
+                            max_htlc_value_sat := b.max_htlc_value_sat.getD d.max_htlc_value_sat,
+                            use_chain_state := b.use_chain_state.getD d.use_chain_state,
+                            enforce_balance := b.enforce_balance.getD d.enforce_balance,
+                            cltv_delta := b.cltv_delta.getD d.cltv_delta },
+                node_id := b.node_id.getD k0, channel_id := none } := by
+  unfold FnB3TestBuilder.TestSimpleValidatorBuilder.build
+  cases hk : fromSlice (List.replicate 33 2) <;>
+    cases h1 : b.max_channel_size_sat <;> cases h2 : b.min_delay <;> cases h3 : b.max_delay <;>
+    cases h4 : b.max_htlc_value_sat <;> cases h5 : b.use_chain_state <;>
+    simp [Rs.unwrap, Rs.panic, bind, Except.bind, pure, Except.pure]
+
+example : FnB3Filter.PolicyFilter.filter { rules := [FnB3Filter.FilterRule.new_warn "policy-x"] } "policy-x-long" = .ok .Error
+    ∧ FnB3Filter.PolicyFilter.filter { rules := [FnB3Filter.FilterRule.new_warn "policy-x"] } "policy-x" = .ok .Warn := by
+  constructor <;> (rw [(C05_fn_filter_rule_exact _ _).1]; simp)
+
+end B3
+
+/-! ### Round 10 (b3): **which** validator and **which** chain state a request is checked against
+
+`Gen.FnB3NodeVal` (node.rs: `Node::{validator, policy, network, validator_factory, get_id, get_channels}`) and
+`Gen.FnB3ChannelVal` (channel.rs: `Channel::{validator, network, get_chain_state, get_node}`, `ChannelStub::{validator,
+get_node}`).  Every `validate_*` call of C05 goes through one of these: the policy that `C05_main` speaks about is the
+one of the validator they return.  `make` is `ValidatorFactory::make_validator` (every implementation). -/
+
+section B3Val
+open VlsModel.Gen
+variable {F N P C S V M Pol CS : Type}
+
+/-- the node's accessors return the node's own fields -/
+theorem C05_fn_node_accessors (n : FnB3NodeVal.Node F N P C S) :
+    n.network = n.node_config.network ∧ n.validator_factory_fn = n.validator_factory ∧ n.get_id = n.node_id
+      ∧ n.get_channels = n.channels := ⟨rfl, rfl, rfl, rfl⟩
+
+/-- `Node::validator`: made by the node's **own** factory for the node's own network and id, without a channel id;
+    `Node::policy`: the same factory's policy for the same network -/
+theorem C05_fn_node_validator (make : F → N → P → Option C → V) (pol : F → N → Pol) (n : FnB3NodeVal.Node F N P C S) :
+    FnB3NodeVal.Node.validator make n = make n.validator_factory n.node_config.network n.node_id none
+      ∧ FnB3NodeVal.Node.policy pol n = pol n.validator_factory n.node_config.network := ⟨rfl, rfl⟩
+
+/-- `get_node`: the node the channel belongs to; `upgrade().unwrap()` panics exactly when it is gone -/
+theorem C05_fn_channel_get_node (c : FnB3ChannelVal.Channel N C M) (st : FnB3ChannelVal.ChannelStub N C) :
+    c.get_node = (match c.node with | some n => .ok n | none => .error .panic)
+      ∧ st.get_node = (match st.node with | some n => .ok n | none => .error .panic) := by
+  unfold FnB3ChannelVal.Channel.get_node FnB3ChannelVal.ChannelStub.get_node
+  constructor
+  · cases c.node <;> rfl
+  · cases st.node <;> rfl
+
+/-- `Channel::validator` / `ChannelStub::validator`: the factory, network and id are those **of the channel's node** (all three
+    read from the same node), the channel id is the channel's own `id0`; nothing else enters -/
+theorem C05_fn_channel_validator {Nd : Type} (vf : Nd → F) (net : Nd → N) (gid : Nd → P) (make : F → N → P → Option C → V)
+    (c : FnB3ChannelVal.Channel Nd C M) (st : FnB3ChannelVal.ChannelStub Nd C) :
+    FnB3ChannelVal.Channel.validator vf net gid make c
+        = (match c.node with | some n => .ok (make (vf n) (net n) (gid n) (some c.id0)) | none => .error .panic)
+      ∧ FnB3ChannelVal.ChannelStub.validator vf net gid make st
+        = (match st.node with | some n => .ok (make (vf n) (net n) (gid n) (some st.id0)) | none => .error .panic) := by
+  unfold FnB3ChannelVal.Channel.validator FnB3ChannelVal.ChannelStub.validator FnB3ChannelVal.Channel.network
+    FnB3ChannelVal.Channel.get_node FnB3ChannelVal.ChannelStub.get_node
+  constructor
+  · cases c.node <;> rfl
+  · cases st.node <;> rfl
+
+/-- both units together: with the node's translated accessors as the externals, a channel's validator differs from its
+    node's validator (`C05_fn_node_validator`) **only** in the channel id — same factory (hence same policy and filter),
+    same network, same node id.  A channel cannot be validated under another node's or a default policy. -/
+theorem C05_fn_channel_validator_is_node_factory (make : F → N → P → Option C → V) (n : FnB3NodeVal.Node F N P C S)
+    (c : FnB3ChannelVal.Channel (FnB3NodeVal.Node F N P C S) C M) (hn : c.node = some n) :
+    FnB3ChannelVal.Channel.validator FnB3NodeVal.Node.validator_factory_fn FnB3NodeVal.Node.network FnB3NodeVal.Node.get_id make c
+        = .ok (make n.validator_factory n.node_config.network n.node_id (some c.id0))
+      ∧ FnB3NodeVal.Node.validator make n = make n.validator_factory n.node_config.network n.node_id none := by
+  refine ⟨?_, rfl⟩
+  rw [(C05_fn_channel_validator _ _ _ _ c (⟨none, c.id0⟩ : FnB3ChannelVal.ChannelStub _ C)).1, hn]; rfl
+
+/-- `Channel::network`: the node's -/
+theorem C05_fn_channel_network {Nd : Type} (net : Nd → N) (c : FnB3ChannelVal.Channel Nd C M) :
+    FnB3ChannelVal.Channel.network net c = (match c.node with | some n => .ok (net n) | none => .error .panic) := by
+  unfold FnB3ChannelVal.Channel.network FnB3ChannelVal.Channel.get_node
+  cases c.node <;> rfl
+
+/-- `Channel::get_chain_state`: the chain state handed to the validator (the on-chain gate `C05_fn_ensure_funding_buried`
+    reads its depths) is `as_chain_state` of the channel's **own** monitor, for every implementation of `as_chain_state`
+    (the translated one: `C14_fn_as_chain_state`) -/
+theorem C05_fn_channel_get_chain_state {Nd : Type} (acs : M → CS) (c : FnB3ChannelVal.Channel Nd C M) :
+    FnB3ChannelVal.Channel.get_chain_state acs c = acs c.monitor := rfl
+
+example : FnB3ChannelVal.Channel.validator (fun (n : Nat) => n + 1) (fun n => n + 2) (fun n => n + 3)
+    (fun f nt p (c : Option Nat) => (f, nt, p, c)) (⟨some 10, 7, ()⟩ : FnB3ChannelVal.Channel Nat Nat Unit) = .ok (11, 12, 13, some 7) := by
+  rw [(C05_fn_channel_validator _ _ _ _ _ (⟨none, 0⟩ : FnB3ChannelVal.ChannelStub Nat Nat)).1]
+
+end B3Val
 
 end VlsModel.Props.C05Fn
